@@ -188,6 +188,34 @@ struct Engine {
         digests.insert(Mix(dg));
     }
 
+
+    // two addressing instructions in ONE Run call: the second step must follow the statement from wherever the first one left the
+    // register (a stepping rule must not depend on what an earlier instruction of the same call did - cached masks, latched steps)
+    void CheckSeq(u16 op1, u16 op2, const VState& s, int unit, int code1, int code2) {
+        u16 words[2] = {op1, op2};
+        VState o1, o2;
+        RunResult r1, r2;
+        impl.api->run(impl.m, &s, words, 2, 1, &o1, &r1);
+        impl.api->run(impl.m, &s, words, 2, 2, &o2, &r2);
+        res.evaluations += 2, res.transitions += 3, res.traces_validated += 2;
+        if (r1.outcome != OUT_OK || r2.outcome != OUT_OK)
+            return;
+        VState mid = s;
+        mid.r[unit] = o1.r[unit];
+        Model m = StepModel(mid, unit, code2, false);
+        u16 got = o2.r[unit];
+        const char* stepn[] = {"zero", "+1", "-1", "+step", "+2", "-2", "+2*", "-2*"};
+        std::string rp = Fmt("c10seq %u %u %d %d %d %s", op1, op2, unit, code1, code2, SerState(s).c_str());
+        if (m.defined && got != m.value)
+            res.AddViolation(Fmt("c10:sequence:step%s-then-step%s:cmd=%u", stepn[code1], stepn[code2], s.cmd),
+                             Fmt("r%d=%04X, %s, mod=%03X step7=%02X: after step %s the register is %04X; a following step %s in the same Run gives %04X, the statement gives %04X",
+                                 unit, s.r[unit], Cfg(s, unit).c_str(), unit < 4 ? s.modi : s.modj, unit < 4 ? s.stepi : s.stepj, stepn[code1], o1.r[unit], stepn[code2], got, m.value),
+                             rp);
+        else if (m.high_only && (code2 == 1 || code2 == 2) && ((got ^ mid.r[unit]) & ~m.mask)) // the alignment guarantee is stated for +1/-1 only
+            res.AddViolation(Fmt("c10:sequence:alignment:cmd=%u", s.cmd),
+                             Fmt("r%d=%04X after step %s, then step %s: bits above the alignment mask %04X changed (%04X)", unit, o1.r[unit], stepn[code1], stepn[code2], m.mask, got), rp);
+        digests.insert(Mix(((u64)op1 << 32) ^ op2 ^ ((u64)got << 16) ^ s.r[unit]));
+    }
     // ---- generic layers over the whole opcode space ----
     // the address-register uses an instruction form names (operand types of the decode table row)
     static bool UsesOf(const DecodeInfo& d, const VState& s, std::vector<Use>& uses) {
@@ -339,6 +367,20 @@ inline int RunReplay(const std::string& r, Result& res) {
             DecodeInfo d;
             e.impl.api->decode((u16)gop, &d);
             e.GenericBitRev((u16)gop, d);
+            for (auto& v : res.violations)
+                quiet.Say(Fmt("  %s\n    %s\n", v.key.c_str(), v.text.c_str()));
+            return res.violations.empty() ? 0 : 1;
+        }
+    }
+    {
+        unsigned o1, o2;
+        int unit, c1, c2, used = 0;
+        if (std::sscanf(r.c_str(), "c10seq %u %u %d %d %d %n", &o1, &o2, &unit, &c1, &c2, &used) == 5) {
+            VState st;
+            if (!ParseState(r.substr(used), st))
+                return 2;
+            Engine e(res);
+            e.CheckSeq((u16)o1, (u16)o2, st, unit, c1, c2);
             for (auto& v : res.violations)
                 quiet.Say(Fmt("  %s\n    %s\n", v.key.c_str(), v.text.c_str()));
             return res.violations.empty() ? 0 : 1;
@@ -530,6 +572,27 @@ inline void Run(const Args& args, Result& res) {
                                                 e.Check("modr[arp]", op, 0, s, {{ri, ci, di}, {rj + 4, cj, dj}}, false);
                                             }
                             }
+                // ---- S: sequences of two steps in one call (modulo on): +s / +-1 / +-2 in every order, small and large buffers
+                for (int unit = 0; unit < 8; ++unit)
+                    for (int cmd = 0; cmd < 2; ++cmd)
+                        for (u16 mod : {(u16)1, (u16)2, (u16)3, (u16)4, (u16)5, (u16)7, (u16)8, (u16)0x10, (u16)0x1F, (u16)0x20, (u16)0x100, (u16)0x1FF}) {
+                            if (!mine())
+                                continue;
+                            for (u16 s7 : {(u16)1, (u16)2, (u16)3, (u16)5, (u16)0x3F, (u16)0x40, (u16)0x7E, (u16)0x7B}) {
+                                VState s = e.base;
+                                s.cmd = (u16)cmd, s.m[unit] = 1;
+                                (unit < 4 ? s.modi : s.modj) = mod;
+                                (unit < 4 ? s.stepi : s.stepj) = s7;
+                                u16 mask = MaskFor(mod);
+                                for (u32 off = 0; off <= mask; ++off) {
+                                    s.r[unit] = (u16)(0x6400 | off);
+                                    auto modr = [&](int code) { return code < 4 ? (u16)(0x0080 | unit | (code << 3)) : code == 4 ? (u16)(0x4990 | unit) : (u16)(0x5DA0 | unit); };
+                                    static const int pairs[][2] = {{3, 1}, {3, 2}, {1, 3}, {2, 3}, {3, 3}, {4, 1}, {5, 2}, {1, 2}, {2, 1}, {3, 4}, {3, 5}};
+                                    for (auto& pr : pairs)
+                                        e.CheckSeq(modr(pr[0]), modr(pr[1]), s, unit, pr[0], pr[1]);
+                                }
+                            }
+                        }
                 // ---- D/E: all 65536 first words ----
                 for (u32 op = idx; op < 0x10000; op += cnt) {
                     DecodeInfo d;
@@ -551,7 +614,8 @@ inline void Run(const Args& args, Result& res) {
                "steps 0,+1,-1,+2,-2 x bit-reverse x compatibility mode x end-pointer mode; all 128 7-bit steps x 7 16-bit steps x stp16 x mode; all "
                "512 modulo values x all offsets 0..mask x 3 high-bit patterns x both modes x +1,-1,0; every ar/arp selector and all 8 step codes; the "
                "new register value, untouched registers and the logged access address are compared with linear / cyclic-walk / bit-reverse arithmetic; "
-               "generic layers over all 65536 first words: every form that names address registers with steps (Rn/R45/R0123+step, ar- and arp-selected "
+               "sequences of two steps inside one Run call (11 step-kind pairs x 12 modulo values x 8 steps x all offsets x modes): the second step follows the statement from "
+               "wherever the first left the register; generic layers over all 65536 first words: every form that names address registers with steps (Rn/R45/R0123+step, ar- and arp-selected "
                "registers) steps them as configured (4 selector configurations), and every form that accesses memory at an address register's value "
                "accesses the bit-reversed address when bit reversal is enabled for that register";
     res.bound = "all 65536 start values; all 512 modulo values and all offsets; all 128 7-bit steps; all ar/arp selector and step-code combinations";
